@@ -3,7 +3,6 @@ package fw
 import (
 	"fmt"
 	"os"
-	"path/filepath"
 	"sort"
 	"strings"
 	"time"
@@ -49,29 +48,11 @@ func genPool(e *Env, stream string, n int, tweak func(i int, o *GenOpts)) []*Pro
 		if len(g.P.Pkgs) > 1 {
 			// blank imports of packages the generated code also has to name: in an ordinary file
 			// of the injector's package, or in the injector file itself
-			var paths []string
-			have := map[string]bool{}
-			for rel := range g.P.Files(false) {
-				have[filepath.ToSlash(filepath.Dir(rel))] = true
-			}
-			for k := 1; k < len(g.P.Pkgs); k++ {
-				if have[g.P.ID+"/"+g.P.Pkgs[k].Dir] {
-					paths = append(paths, g.P.ImportPath(k))
-				}
-			}
 			switch i % 5 {
 			case 2:
-				src := "package " + g.P.Pkgs[0].Name + "\n\nimport (\n"
-				for _, ip := range paths {
-					src += "\t_ \"" + ip + "\"\n"
-				}
-				src += "\t_ \"fmt\"\n)\n"
-				if g.P.Extra == nil {
-					g.P.Extra = map[string]string{}
-				}
-				g.P.Extra["0/blank_imports.go"] = src
+				g.P.BlankLibs = "file"
 			case 4:
-				g.P.InjBlankImports = append(g.P.InjBlankImports, paths...)
+				g.P.BlankLibs = "injector"
 			}
 		}
 		if i%4 == 3 {
